@@ -546,11 +546,17 @@ func (l *lexer) subst() bool {
 					}
 				}
 
-				r := strings.NewReader(strings.TrimRight(v, "\t ") + " ")
+				s := strings.TrimRight(v, "\t ")
+				blank := len(v) > len(s)
+				if n := len(s) - len(strings.TrimRight(s, "\\")); blank && n%2 == 1 {
+					// the first of the trailing <blank>s is escaped: it is
+					// part of the last word
+					s = v[:len(s)+1]
+				}
 				l.aliases = append(l.aliases, &alias{
 					name:  w.Value,
-					value: r,
-					blank: len(v) > r.Len()-1,
+					value: strings.NewReader(s + " "),
+					blank: blank,
 				})
 				l.word = nil
 				return true
